@@ -317,7 +317,32 @@ pub fn run(args: &Args) -> i32 {
         plans.push(("2files-3sources-2tasks-depth5", alphabet(2, &[1, 3, 4], 2, false), 5));
         plans.push(("probes-as-operations-depth4", alphabet(2, &[1, 3], 2, true), 4));
     }
-    for (name, alpha, depth) in plans {
+    // AddressSanitizer pass: the same engine, served by the sanitizer build of this binary
+    let asan_exe = std::env::var("NQV_ASAN_EXE").ok().filter(|p| std::path::Path::new(p).exists());
+    let asan_dir = format!("{}/c19-asan-{}", std::env::var("NQV_TMP").unwrap_or_else(|_| "/verif/.build/tmp".into()), std::process::id());
+    let asan_pool = asan_exe.as_ref().map(|exe| {
+        let _ = std::fs::create_dir_all(&asan_dir);
+        Pool::with_exe(
+            Some(exe.clone()),
+            "c19",
+            args.threads,
+            vec![("ASAN_OPTIONS".to_string(), format!("detect_leaks=0:abort_on_error=0:exitcode=86:log_path={asan_dir}/asan"))],
+        )
+    });
+    let mut plans: Vec<(&str, Vec<Op>, usize, bool)> = plans.into_iter().map(|(n, a, d)| (n, a, d, false)).collect();
+    if asan_pool.is_some() {
+        if args.quick() {
+            plans.push(("asan:2files-5sources-2tasks-depth3", alphabet(2, &[1, 2, 3, 4, 5], 2, false), 3, true));
+            plans.push(("asan:2files-2sources-2tasks-depth4", alphabet(2, &[1, 3], 2, false), 4, true));
+        } else {
+            plans.push(("asan:full-alphabet-depth3", alphabet(3, &all, 3, false), 3, true));
+            plans.push(("asan:2files-3sources-2tasks-depth4", alphabet(2, &[1, 3, 4], 2, false), 4, true));
+            plans.push(("asan:2files-2sources-2tasks-depth5", alphabet(2, &[1, 3], 2, false), 5, true));
+        }
+    }
+    let asan_histories = AtomicU64::new(0);
+    for (name, alpha, depth, asan) in plans {
+        let pool: &Pool = if asan { asan_pool.as_ref().unwrap() } else { &pool };
         let a = alpha.len();
         let before = histories.load(Ordering::Relaxed);
         // only maximal-length histories are sent: every prefix is checked on the way
@@ -341,6 +366,10 @@ pub fn run(args: &Args) -> i32 {
                     tt /= a;
                 }
                 histories.fetch_add(1, Ordering::Relaxed);
+                if asan {
+                    asan_histories.fetch_add(1, Ordering::Relaxed);
+                }
+                let worker_pid = if asan { pool.pid(slot) } else { 0 };
                 let req = json!({"ops": ops.iter().map(op_json).collect::<Vec<_>>()});
                 let case = || json!({"ops": ops.iter().map(op_json).collect::<Vec<_>>(), "shown": ops.iter().map(op_show).collect::<Vec<_>>()});
                 match pool.ask(slot, &req) {
@@ -361,6 +390,18 @@ pub fn run(args: &Args) -> i32 {
                             }
                             distinct.insert(fnv(format!("{ops:?}").as_bytes()));
                         }
+                    }
+                    Answer::Died { panic, status } if asan && panic.is_none() => {
+                        // the sanitizer's report is in its log file
+                        let log = std::fs::read_to_string(format!("{asan_dir}/asan.{worker_pid}")).unwrap_or_default();
+                        let kind = log.lines().find_map(|l| l.split("ERROR: AddressSanitizer: ").nth(1)).map(|r| r.split(" on ").next().unwrap_or("?").split(" in ").next().unwrap_or("?").split(':').next().unwrap_or("?").trim().replace(' ', "-")).unwrap_or_else(|| "no-report".into());
+                        let frame = log.lines().filter(|l| l.trim_start().starts_with('#')).find(|l| l.contains("/crates/")).map(|l| l.trim().to_string()).unwrap_or_default();
+                        let site = frame.split("/crates/").nth(1).map(|x| format!("crates/{}", x.split(':').next().unwrap_or(""))).unwrap_or_else(|| "?".into());
+                        rep.report(Violation {
+                            key: format!("asan:{kind}@{site}"),
+                            what: format!("AddressSanitizer: {kind} (process {status}); first frame in the repository: {frame}"),
+                            case: json!({"ops": ops.iter().map(op_json).collect::<Vec<_>>(), "shown": ops.iter().map(op_show).collect::<Vec<_>>(), "asan_report": log.chars().take(6000).collect::<String>()}),
+                        });
                     }
                     Answer::Died { panic, status } => {
                         let (site, msg) = panic.unwrap_or(("no-panic-message".into(), status.clone()));
@@ -386,10 +427,12 @@ pub fn run(args: &Args) -> i32 {
         "rule": "every history of exactly `depth` mutating calls (initiate/load/free over the alphabets below; prefixes are checked on the way); after every call all issued ids and two never-issued ids are probed with required() and emit(); non-trivial = at least one emit succeeded and was compared with a fresh task's module",
         "exhaustive": true,
         "families": fam,
+        "address_sanitizer_pass": if asan_pool.is_some() { json!({"histories": asan_histories.load(Ordering::Relaxed), "build": "nightly -Zsanitizer=address, leak detection off (the ABI leaks the 24-byte String header of alloc_string by design)"}) } else { json!("not run: the sanitizer build is not available") },
         "abi_calls": calls.load(Ordering::Relaxed),
         "emit_modules_compared_with_fresh_task": emits.load(Ordering::Relaxed),
         "samples": [["initiate(/p/a.graphql, src1)", "load(task#0, /p/b.graphql, src3)", "free(task#0)", "then probes on ids 1,2,3"]],
     });
+    let _ = std::fs::remove_dir_all(&asan_dir);
     rep.finish(
         cov,
         vec![
